@@ -25,7 +25,7 @@ ASSUMPTIONS = [
     'the harness catches it and only requires that the target keeps a valid value and mirrors again once the value is valid',
     'sync watchers are recognised structurally (bound method _sync_refs whose owner namespace belongs to the target)',
 ]
-REQUIRED = {'mirror_checks': 8000, 'source_updates': 2000, 'overrides': 300, 'relinks': 300, 'nested_links': 200, 'leak_checks': 3000, 'triggers': 100,
+REQUIRED = {'overrides_right_after_a_failed_delivery': 20, 'mirror_checks': 8000, 'source_updates': 2000, 'overrides': 300, 'relinks': 300, 'nested_links': 200, 'leak_checks': 3000, 'triggers': 100,
             'same_reference_reassigned': 20, 'overrides_from_trigger_callback': 50, 'equal_comparing_source_cases': 40,
             'targets_sharing_parameter_objects': 40, 'assignments_from_on_init_method': 100, 'arraylike_source_values': 100, 'overrides_from_sync_callback': 40, 'falsy_source_cases': 30, 'source_side_observations': 1000, 'self_correcting_source_cases': 30}
 
@@ -383,9 +383,15 @@ def run_case(idx, rng, P, rep):
                                          f'target{ti} although none of its live links ({sorted(links[ti])}) depends on it')
 
     verify('construction')
+    follow_up = None
     for step in range(rng.randint(6, P['maxlen'])):
         c = rng.random()
         ti = rng.randrange(ntg)
+        forced_tp = None
+        if follow_up is not None:
+            # a delivery has just failed half-way: a parameter fed by the same source is overridden next
+            (ti, forced_tp), follow_up, c = follow_up, None, 0.7
+            rep.count('overrides_right_after_a_failed_delivery')
         t = targets[ti]
         if c < 0.45:
             si = rng.randrange(len(srcs))
@@ -455,6 +461,9 @@ def run_case(idx, rng, P, rep):
             except (ValueError, ZeroDivisionError) as e:
                 rep.count('source_update_raised_for_invalid_target_value' if isinstance(e, ValueError) else 'source_update_raised_in_reference')
                 raised_last.add((si, pn))
+                fed = [(tj_, tp_) for tj_, lk_ in enumerate(links) for tp_, (_e, _k, deps_) in lk_.items() if (si, pn) in deps_]
+                if fed and rng.random() < 0.5:
+                    follow_up = rng.choice(fed)
                 # the failure must have a cause: some live link fed by this source has no value / an invalid value now
                 cause = any((si, pn) in m for m in murky) or any(
                     (si, pn) in deps and not valid_for(tp_, safe(ev_))
@@ -506,7 +515,7 @@ def run_case(idx, rng, P, rep):
             if len(links[ti]) >= 2:
                 flags['multi'] = True
         elif c < 0.78:
-            tp = rng.choice(['x', 'y', 'z', 'l', 'd'])
+            tp = forced_tp or rng.choice(['x', 'y', 'z', 'l', 'd'])
             v = {'x': fresh(), 'y': fresh(), 'z': ('plain', fresh()), 'l': [fresh()], 'd': {'p': fresh()}}[tp]
             steps.append('override' if tp in links[ti] else 'set')
             trace.append((steps[-1], ti, tp, v))
